@@ -70,15 +70,18 @@ theorem runOne_the (env : Env) (a : String → List String → Bool) (ha : env.a
     (log : List AuthCall) :
     runOne env k thePrograms.secOne r log =
       .ret (runReq env.declared a k (sortUses r)).1 (log ++ (runReq env.declared a k (sortUses r)).2) := by
-  have h := runNames_the env a ha k (sortUses r) log
-  simp only [steps0] at h
-  simp only [thePrograms, runOne, ha, Option.isNone_some, Bool.false_eq_true, if_false, h]
-  rcases runReq env.declared a k (sortUses r) with ⟨b, l⟩
-  cases b <;> simp
+  cases r with
+  | nil => simp [thePrograms, runOne, sortUses, runReq]
+  | cons u us =>
+    have h := runNames_the env a ha k (sortUses (u :: us)) log
+    simp only [steps0] at h
+    simp only [thePrograms, runOne, ha, Option.isNone_some, Bool.false_eq_true, if_false, h, List.isEmpty_cons]
+    rcases runReq env.declared a k (sortUses (u :: us)) with ⟨b, l⟩
+    cases b <;> simp
 
 theorem runOne_nil (env : Env) (ha : env.auth = none) (k : Nat) (r : Requirement) (log : List AuthCall) :
-    runOne env k thePrograms.secOne r log = .ret false log := by
-  simp [thePrograms, runOne, ha]
+    runOne env k thePrograms.secOne r log = .ret r.isEmpty log := by
+  cases r <;> simp [thePrograms, runOne, ha]
 
 /-! ### `ValidateSecurityRequirements` -/
 
@@ -104,18 +107,21 @@ theorem runEach_the (env : Env) (a : String → List String → Bool) (ha : env.
 
 theorem runEach_nil (env : Env) (ha : env.auth = none) :
     ∀ (rs : List Requirement) (k : Nat) (log : List AuthCall),
-      runEach thePrograms.secOne env .cont rs k log = .fell log := by
+      runEach thePrograms.secOne env .cont rs k log = if rs.any (·.isEmpty) then .retOk log else .fell log := by
   intro rs
   induction rs with
   | nil => intro k log; simp [runEach]
-  | cons r rs ih => intro k log; rw [runEach, runOne_nil env ha]; simp [ih]
+  | cons r rs ih =>
+    intro k log
+    rw [runEach, runOne_nil env ha]
+    cases hr : r.isEmpty <;> simp [ih, hr]
 
 /-- the security check of the loop-free formulation, for an arbitrary list -/
 def secD (env : Env) (rs : List Requirement) : Bool × List AuthCall :=
   match rs with
   | [] => (true, [])
   | rs => match env.auth with
-    | none => (false, [])
+    | none => (rs.any (·.isEmpty), [])
     | some a => runReqs env.declared a 0 rs
 
 theorem runSecurity_eq_secD (env : Env) (op : Op) : runSecurity env op = secD env (securityList op) := by
@@ -131,7 +137,8 @@ theorem runSecAll_the (env : Env) (rs : List Requirement) (log : List AuthCall) 
     | none =>
       have h := runEach_nil env ha (r :: rs) 0 log
       simp only [thePrograms] at h
-      simp [thePrograms, runSecAll, secD, ha, h]
+      simp only [thePrograms, runSecAll, secD, ha, h, List.isEmpty_cons, Bool.false_eq_true, if_false]
+      cases ((r :: rs).any (·.isEmpty)) <;> simp [runSecAll]
     | some a =>
       have h := runEach_the env a ha (r :: rs) 0 log
       simp only [thePrograms] at h
